@@ -365,7 +365,7 @@ def run(ctx, rep):
     # are the file's fields (not normalised on the way in) is C02; that the stream parser's read_bytes(a, b) hands back file[a..b) is the
     # cache protocol shared with C07 / C08
     from ._common import premise
-    premise(ctx, rep, "C02", "FileHeader / SectionHeader fields are the file's fields", rules={"decode", "decode-reads", "decode-size", "decode-errors"}, where="src/file.rs, src/section.rs")
+    premise(ctx, rep, "C02", "FileHeader / SectionHeader fields are the file's fields", rules={"decode", "decode-reads", "decode-size", "decode-errors", "premise"}, where="src/file.rs, src/section.rs")
     if "std" in F["config"]["features"]:
         from ..streamrules import rule_cache_protocol, rule_load_before_get
         from ..runner import Report
